@@ -373,6 +373,25 @@ def r2_set_order(ctx):
             is_gen = any(isinstance(x, (ast.Yield, ast.YieldFrom)) for x in ast.walk(g.node))
             if is_gen and (g.parent is ranker or (g.module is ranker.module and (g.name in called or f"self.{g.name}" in called))):
                 rank_groupers.add(g)
+    # the layer sorter compares each pair of applicable types in one direction only, in the (set) order it receives
+    # them: decided on the calls it makes when abstractly executed, whatever loop it is written with
+    from . import sortexec
+
+    try:
+        _, facts = sortexec.checked(ctx)
+        if facts["one_way"]:
+            key = f"{sorter.key}:one-way-pairs"
+            seen[key] = True
+            n += 1
+            ctx.ob(
+                key,
+                sorter.loc(),
+                "the layer sorter does not let the (set) order of the applicable types decide in which direction a pair is compared",
+                False,
+                "each pair of applicable types is compared once, in one direction only, in set order: with an order hook that is not mirror-symmetric the layers depend on the hash seed",
+            )
+    except AnalysisError as e:
+        ctx.note(f"layer sorter not interpretable ({e}); its pairwise loop is judged syntactically")
     for f, node, kind, name, discharged, why in sites:
         ctx.touch(f)
         if f.cls is an and analyser_interpreted:
